@@ -462,7 +462,20 @@ func idEqualityGuardsNil(fn *ssa.Function, errIdx int) string {
 	// error value at returns: named result err stored through an Alloc or phi
 	okEdge := func(b *ssa.BasicBlock) bool { return b == succ || (len(succ.Preds) == 1 && succ.Dominates(b)) }
 	badEdge := func(b *ssa.BasicBlock) bool { return b == fail || (len(fail.Preds) == 1 && fail.Dominates(b)) }
-	// find definitions of the error result that are nil after the comparison
+	// every error value returned from a block on the mismatch side must be a
+	// freshly constructed error; a value that may be nil (nil constant, or the
+	// already-checked err of ReadPacket) may only flow from the equal side
+	fresh := func(v ssa.Value) bool {
+		if mi, ok := v.(*ssa.MakeInterface); ok {
+			v = mi.X
+		}
+		if cl, ok := v.(*ssa.Call); ok {
+			n := calleeName(cl.Common())
+			return n == "errors.New" || n == "fmt.Errorf"
+		}
+		_, isAlloc := v.(*ssa.Alloc)
+		return isAlloc
+	}
 	for _, b := range fn.Blocks {
 		for _, in := range b.Instrs {
 			switch x := in.(type) {
@@ -471,13 +484,12 @@ func idEqualityGuardsNil(fn *ssa.Function, errIdx int) string {
 					v := x.Results[errIdx]
 					if ph, ok := v.(*ssa.Phi); ok {
 						for k, e := range ph.Edges {
-							if isNilConst(e) && badEdge(ph.Block().Preds[k]) {
-								return "a nil error flows from the id-mismatch edge"
+							if !fresh(e) && badEdge(ph.Block().Preds[k]) {
+								return "a possibly-nil error flows to the result from the id-mismatch edge: the response is accepted under a foreign id"
 							}
 						}
-					}
-					if isNilConst(v) && badEdge(b) {
-						return "a nil error is returned on the id-mismatch edge"
+					} else if !fresh(v) && badEdge(b) {
+						return "a possibly-nil error is returned on the id-mismatch edge"
 					}
 				}
 			case *ssa.Store:
